@@ -91,15 +91,23 @@ def vec_close(got, terms, env, label):
     return None
 
 
+def _wm(wmag):
+    w, mag = wmag
+    return w, max(mag, abs(w))
+
+
+REORDERED = [0]          # draws that matched another element of their block than the next one in script order (drift, not a verdict)
+
+
 def check_sweep(case, log, y):
     """one recorded sweep against the script; returns None or a message"""
     script = case["script"]
     order = [e["block"] for e in log if e["fn"] == "block_begin"]
     if order != BLOCKS:
         return "blocks visited %s, documented order %s" % (order, BLOCKS)
-    si = 0
+    si, used = 0, set()
     cur, prev_out, draws_in_block = None, None, []
-    for e in log:
+    for j_, e in enumerate(log):
         if e["fn"] == "block_begin":
             cur, prev_out, draws_in_block = e["block"], None, []
             continue
@@ -107,8 +115,9 @@ def check_sweep(case, log, y):
             snap = e["snap"]
             blk = BLOCK_OF.get(cur)
             # every draw the script expects for this block must have happened
-            if blk and si < len(script) and script[si]["block"] == blk:
-                return "block %s made %d draws, the model needs more (next: %s %s)" % (blk, len(draws_in_block), script[si]["block"], script[si]["idx"])
+            missing = [x for x in range(len(script)) if x not in used and script[x]["block"] == blk] if blk else []
+            if missing:
+                return "block %s made %d draws, the model needs more (next: %s %s)" % (blk, len(draws_in_block), script[missing[0]]["block"], script[missing[0]]["idx"])
             if cur == "_alpha_step":
                 w, mag = ev(case["alpha"], env_of(snap, y))
                 if not close(float(snap["alpha"]), w, mag, 1e-5):
@@ -135,28 +144,48 @@ def check_sweep(case, log, y):
                     if not close(float(snap["tau"][k_]), w, max(mag, abs(w)), 1e-5):
                         return "tau[%d] = %.9g, cumulative product of gam clipped = %.9g" % (k_, float(snap["tau"][k_]), w)
             continue
-        # a draw
+        # a draw: it must be the full-conditional draw of SOME element of this block that has not been drawn yet in this sweep, given
+        # the state at this very moment (the order of the elements inside a block is not part of C08; the script order is only tried first)
         blk = BLOCK_OF.get(cur)
-        if si >= len(script) or script[si]["block"] != blk:
-            return "unexpected %s draw in %s (the model expects %s)" % (e["fn"], cur, script[si]["block"] if si < len(script) else "nothing more")
-        sc = script[si]
-        si += 1
+        pending = [x for x in range(len(script)) if x not in used and script[x]["block"] == blk]
+        if not pending:
+            nxt = [x for x in range(len(script)) if x not in used]
+            return "unexpected %s draw in %s (the model expects %s)" % (e["fn"], cur, script[nxt[0]]["block"] if nxt else "nothing more")
         env = env_of(e["snap"], y, prev=prev_out)
-        label = "%s%s" % (sc["block"], sc["idx"])
-        if sc["kind"] == "not-gaussian":
-            msg = None
-        elif sc["fn"] != e["fn"]:
-            msg = "%s drawn with %s, the model requires %s (%s)" % (label, e["fn"], sc["fn"], sc["kind"])
-        elif sc["fn"] == "normal":
-            msg = vec_close(e["loc"], sc["loc"], env, label + " normal mean") or vec_close(e["scale"], sc["scale"], env, label + " normal sd")
-        elif sc["fn"] == "gamma":
-            msg = vec_close(e["shape"], sc["shape"], env, label + " gamma shape") or vec_close(1.0 / np.asarray(e["scale"], dtype=float), sc["rate"], env, label + " gamma rate")
-        else:
-            msg = vec_close(e["Q"], [t for row in sc["Q"] for t in row], env, label + " precision matrix Q") or vec_close(e["b"], sc["b"], env, label + " linear term")
-        if msg:
-            return msg
+        first_msg, hit = None, None
+        for x in pending:
+            sc = script[x]
+            label = "%s%s" % (sc["block"], sc["idx"])
+            if sc["kind"] == "not-gaussian":
+                msg = None
+            elif sc["fn"] != e["fn"]:
+                msg = "%s drawn with %s, the model requires %s (%s)" % (label, e["fn"], sc["fn"], sc["kind"])
+            elif sc["fn"] == "normal":
+                msg = vec_close(e["loc"], sc["loc"], env, label + " normal mean") or vec_close(e["scale"], sc["scale"], env, label + " normal sd")
+            elif sc["fn"] == "gamma":
+                msg = vec_close(e["shape"], sc["shape"], env, label + " gamma shape") or vec_close(1.0 / np.asarray(e["scale"], dtype=float), sc["rate"], env, label + " gamma rate")
+            else:
+                msg = vec_close(e["Q"], [t for row in sc["Q"] for t in row], env, label + " precision matrix Q") or vec_close(e["b"], sc["b"], env, label + " linear term")
+            if msg is None:
+                # several elements can have the same conditional (e.g. prior draws): the one whose stored value shows up in the state
+                # right after this draw is the one that was drawn
+                nxt_snap = next((f["snap"] for f in log[j_ + 1:] if "snap" in f), None)
+                ok_store = nxt_snap is not None and all(
+                    close(float(nxt_snap[st["a"]][tuple(st["i"])] if st["i"] else nxt_snap[st["a"]]), *_wm(ev(st["v"], env_of(e["snap"], y, out=e["out"]))), 1e-5)
+                    for st in sc["store"])
+                if hit is None or ok_store:
+                    hit = x
+                if ok_store:
+                    break
+            first_msg = first_msg or msg
+        if hit is None:
+            return first_msg
+        if hit != pending[0]:
+            REORDERED[0] += 1
+        used.add(hit)
+        si = len(used)
         prev_out = e["out"]
-        draws_in_block.append((e, sc))
+        draws_in_block.append((e, script[hit]))
     if si != len(script):
         return "the sweep made %d draws, the model needs %d" % (si, len(script))
     return None
@@ -346,6 +375,10 @@ def run(ctx):
         ctx.evaluations += 1
         if msg:
             ctx.violation("long chain, D=%d: %s" % (D, msg), {"kind": "long", "D": D})
+    ctx.extra["model_drift"] = REORDERED[0]
+    if REORDERED[0]:
+        print("NOTE model-drift property=C08: %d draw(s) were the exact full conditional of another element of their block than the next one in the "
+              "order Gibbs.tla lists them; the element order inside a block is not part of C08" % REORDERED[0])
     for D in (1, 2, 3, 4):
         for _ in range(3):
             msg = check_mvn(rng, D)
